@@ -180,6 +180,11 @@ class Skip(Exception):
     """the proposed operation is not applicable in the current world (guard failed)"""
 
 
+class Unexpected(Exception):
+    """a valid operation failed (or produced garbage) on the real code: the history ends here and
+    is reported as a broken correspondence (the model says the operation succeeds)"""
+
+
 # ------------------------------------------------------------------------------------------
 def arr_from(vals, shape):
     """ndarray from a flat JSON-able list (ints, floats, [re, im] pairs)"""
@@ -269,6 +274,8 @@ class World:
         self.n_monitor = 0
         self.flags = set()
         self.write_seen = False
+        self.unexpected = None
+        self.member_ids = {}   # collection id -> ids of its member objects at creation
 
     # ---- handles ---------------------------------------------------------------------------
     def rid(self, name):
@@ -446,6 +453,9 @@ class World:
     def check_collection(self, ci, write_test):
         fc = self.objs[ci]
         base = fc._data_full
+        if [id(f) for f in fc.fields] != self.member_ids.get(ci):
+            self.fail("the member objects of a collection were replaced", {"coll": ci})
+            return
         g = fc.grid
         dim = g.dim
         if base.shape[1:] != full_shape(g) or not base.flags.c_contiguous:
@@ -527,12 +537,23 @@ class World:
         except Skip:
             del self.model_ops[n_model_old:]
             return False
+        except Unexpected as e:
+            del self.model_ops[n_model_old:]
+            self.unexpected = {"operation": {k: v for k, v in d.items() if k != "vals"}, "problem": str(e)}
+            self.script.append(d)
+            if self.monitors:
+                self.check_data_view()
+                for ci in range(len(self.objs)):
+                    if self.cls[ci] == "coll":
+                        self.check_collection(ci, write_test=False)
+            return False
         uid = d["uid"]
         err = out.get("err")
         for o in out.get("new", []):
             self.register(o, uid)
         for ci in range(n_old, len(self.objs)):
             if self.cls[ci] == "coll":
+                self.member_ids[ci] = [id(f) for f in self.objs[ci].fields]
                 for m in self.members(ci):
                     if m is not None:
                         self.linked[m] = ci
@@ -752,7 +773,7 @@ class World:
         ghosts = self.ghost_addresses(i)
         res, err = self.try_real(lambda: o.set_ghost_cells(bc))
         if err is not None:
-            raise RuntimeError(f"set_ghost_cells failed unexpectedly: {err}")
+            raise Unexpected(f"set_ghost_cells failed unexpectedly: {err}")
         after = np.array(self.full(i), copy=True).ravel()
         self.model_ops.append(self.ghost_op(i, before, after))
         return {"err": None, "allowed": [ghosts], "write": True}
@@ -764,7 +785,7 @@ class World:
         ab = after.view(np.uint8).reshape(after.size, -1)
         ch = np.any(bb != ab, axis=1) & ~m
         if not np.all(np.isfinite(after[ch].astype(np.complex128))):
-            raise RuntimeError("boundary condition produced a non-finite virtual point")
+            raise Unexpected("boundary condition produced a non-finite virtual point")
         vals = [enc(z) if c else None for z, c in zip(after.tolist(), ch.tolist())]
         return {"op": "setGhosts", "h": i, "vals": vals}
 
@@ -807,8 +828,8 @@ class World:
                 raise Skip()
             arg = self.objs[ci]
         else:
-            ids = [self.rid(h) for h in d["hs"]]
-            if any(self.cls[i] == "raw" for i in ids):
+            ids = [self.byname[tuple(h)] for h in d["hs"] if tuple(h) in self.byname]   # (shrinking may have removed some)
+            if not ids or any(self.cls[i] == "raw" for i in ids):
                 raise Skip()
             arg = [self.objs[i] for i in ids]
             if how == "mapping":
@@ -845,7 +866,7 @@ class World:
             start += nc
         self.model_ops.append({"op": "mkColl", "hs": list(range(n0, n0 + len(classes))), "copy": False, "dt": dt})
         if err is not None:
-            raise RuntimeError(f"from_data failed unexpectedly: {err}")
+            raise Unexpected(f"from_data failed unexpectedly: {err}")
         return {"err": None, "new": [res], "fresh": [res]}
 
     def op_slice(self, d):
@@ -863,8 +884,8 @@ class World:
 
     def op_append(self, d):
         ci = self.rid(d["c"])
-        ids = [self.rid(h) for h in d["hs"]]
-        if self.cls[ci] != "coll" or any(self.cls[i] == "raw" for i in ids):
+        ids = [self.byname[tuple(h)] for h in d["hs"] if tuple(h) in self.byname]
+        if not ids or self.cls[ci] != "coll" or any(self.cls[i] == "raw" for i in ids):
             raise Skip()
         for i in [ci] + ids:
             if self.cls[i] == "coll" and any(m is None for m in self.members(i)):
@@ -1003,10 +1024,10 @@ class World:
         allowed = [self.ghost_addresses(i)] + ([addresses(out.data)] if out is not None else [])
         res, err = self.try_real(lambda: o.apply_operator(name, bc=bc, backend=backend, out=out))
         if err is not None:
-            raise RuntimeError(f"apply_operator({name}) failed unexpectedly: {err}")
+            raise Unexpected(f"apply_operator({name}) failed unexpectedly: {err}")
         after = np.array(self.full(i), copy=True).ravel()
         if not np.all(np.isfinite(res.data.astype(np.complex128))):
-            raise RuntimeError("operator result is not finite")
+            raise Unexpected("operator result is not finite")
         self.model_ops.append(self.ghost_op(i, before, after))
         if out is not None:
             if res is not out:
@@ -1058,7 +1079,7 @@ class World:
             allowed = [addresses(o.data)]
             res, err = self.try_real(lambda: o.transpose(inplace=(what == "transpose_inplace")))
             if err is not None:
-                raise RuntimeError(f"transpose failed unexpectedly: {err}")
+                raise Unexpected(f"transpose failed unexpectedly: {err}")
             if what == "transpose":
                 self.model_ops.append({"op": "copy", "h": i, "dt": None})
                 self.model_ops.append({"op": "writeData", "h": len(self.objs), "vals": enc_arr(self.expand_valid(i, res.data))})
@@ -1074,7 +1095,7 @@ class World:
             if what == "apply":
                 res, err = self.try_real(lambda: o.apply(lambda x: 2 * x))
                 if err is not None:
-                    raise RuntimeError(f"apply failed unexpectedly: {err}")
+                    raise Unexpected(f"apply failed unexpectedly: {err}")
                 self.model_ops.append({"op": "copy", "h": i, "dt": None})
                 self.model_ops.append({"op": "writeData", "h": len(self.objs), "vals": enc_arr(self.expand_valid(i, res.data))})
                 return {"err": None, "new": [res], "fresh": [res]}
@@ -1085,7 +1106,7 @@ class World:
             allowed = [addresses(out.data)]
             res, err = self.try_real(lambda: o.apply(lambda x: 2 * x, out=out))
             if err is not None:
-                raise RuntimeError(f"apply(out=) failed unexpectedly: {err}")
+                raise Unexpected(f"apply(out=) failed unexpectedly: {err}")
             if res is not out:
                 self.fail("apply(out=f) did not return f", {})
             self.model_ops.append({"op": "writeData", "h": j, "vals": enc_arr(self.expand_valid(j, res.data))})
@@ -1093,9 +1114,9 @@ class World:
         else:
             raise Skip()
         if err is not None:
-            raise RuntimeError(f"{what} failed unexpectedly: {err}")
+            raise Unexpected(f"{what} failed unexpectedly: {err}")
         if not np.all(np.isfinite(res.data.astype(np.complex128))):
-            raise RuntimeError("derived result is not finite")
+            raise Unexpected("derived result is not finite")
         # `cls(grid, data)` without dtype: the dtype is re-derived from the data (number_array)
         self.model_ops.append(self.derived_op(spec[0], g, None, res))
         return {"err": None, "new": [res], "fresh": [res]}
@@ -1112,7 +1133,7 @@ class World:
             st = self.pde.MemoryStorage()
             res, err = self.try_real(lambda: st.start_writing(o))
             if err is not None:
-                raise RuntimeError(f"start_writing failed unexpectedly: {err}")
+                raise Unexpected(f"start_writing failed unexpectedly: {err}")
             self.model_ops.append({"op": "copy", "h": i, "dt": None})
             self.storages[d["uid"]] = {"st": st, "frames": []}
 
@@ -1131,7 +1152,7 @@ class World:
             o = self.objs[i]
             res, err = self.try_real(lambda: st.append(o, float(len(st))))
             if err is not None:
-                raise RuntimeError(f"storage.append failed unexpectedly: {err}")
+                raise Unexpected(f"storage.append failed unexpectedly: {err}")
             self.model_ops.append({"op": "storeFrame", "h": i})
             frame = st.data[-1]
 
@@ -1150,7 +1171,7 @@ class World:
                 raise Skip()
             res, err = self.try_real(lambda: st[k])
             if err is not None:
-                raise RuntimeError(f"storage[k] failed unexpectedly: {err}")
+                raise Unexpected(f"storage[k] failed unexpectedly: {err}")
             if st.data[k] is not self.objs[fi]:
                 raise RuntimeError("storage frame bookkeeping of the harness is off")
             self.model_ops.append({"op": "loadFrame", "t": ti, "f": fi})
@@ -1216,7 +1237,7 @@ def gen_scalar(rng, kind):
     return rng.choice([[0.0, 1.0], [1.0, 1.0], [2.0, -1.0], [0.0, -2.0], [0.5, 0.5]])
 
 
-DTYPES = [None, "f64", "f64", "f64", "f64", "f32", "f32", "c128", "c128", "c64", "i64"]
+DTYPES = [None, "f64", "f64", "f64", "f64", "f32", "f32", "c128", "c128", "c64", "i64", "i64"]
 BCS = ["auto_periodic_neumann", "auto_periodic_dirichlet", "auto_periodic_curvature", {"value": 2}, {"derivative": 1},
        {"value": -3}]
 
@@ -1256,7 +1277,7 @@ class Gen:
             ("mkColl", 4 * crowd if nf else 0), ("fromData", 0.5 * crowd), ("slice", 1.6 * crowd if ncoll else 0),
             ("append", 1.6 * crowd if ncoll else 0), ("copy", 2.2 * crowd if n else 0), ("neg", 1 * crowd if n else 0),
             ("binop", 4 * crowd if nf else 0), ("inplace", 4.5 if nf else 0), ("operator", 1.3 * crowd if nf else 0),
-            ("derived", 1.2 * crowd if nf else 0), ("storage", 1.6 * crowd if nf else 0),
+            ("derived", 1.2 * crowd if nf else 0), ("storage", 2.2 * crowd if nf else 0),
             ("malformed", 1.6 if nf else 0),
         ]
         kinds, weights = zip(*table)
@@ -1402,9 +1423,12 @@ class Gen:
         i = self.pick(lambda j: w.cls[j] != "raw")
         return None if i is None else {"k": "neg", "h": self.name(i)}
 
-    def operand(self, a, inplace):
+    def operand(self, a, inplace, bop="add"):
         """second operand: mostly something compatible with handle a"""
         w, rng = self.w, self.rng
+        if rng.random() < 0.1:
+            # neutral elements: where a "nothing to do" shortcut would return the operand itself
+            return {"v": rng.choice([1, 1.0]) if bop in ("mul", "div") else rng.choice([0, 0.0])}
         if rng.random() < 0.4:
             k = KIND.get(w.dtn(a), 1)
             kk = rng.choice([0, 0, 1, k, k, 2] if not inplace else [0, k, k, min(k, 1)])
@@ -1430,7 +1454,7 @@ class Gen:
         elif bop in ("rsub", "rdiv"):
             d["v"] = gen_scalar(rng, rng.choice([0, 1]))
         else:
-            d.update(self.operand(a, False))
+            d.update(self.operand(a, False, bop))
         return d
 
     def g_inplace(self):
@@ -1444,7 +1468,7 @@ class Gen:
             d["n"] = rng.choice([2, 2, 1])
             d["v"] = d["n"]
         else:
-            d.update(self.operand(a, True))
+            d.update(self.operand(a, True, bop))
         return d
 
     def g_operator(self):
@@ -1484,7 +1508,7 @@ class Gen:
             return None if i is None else {"k": "storage", "what": "start", "h": self.name(i)}
         st = rng.choice(sorted(w.storages))
         S = w.storages[st]
-        if S["frames"] and rng.random() < 0.5:
+        if S["frames"] and rng.random() < 0.65:
             return {"k": "storage", "what": "read", "st": st, "idx": rng.randrange(8)}
         ti = S["template"]
         i = self.pick(lambda j: w.cls[j] == w.cls[ti] and w.gid[j] == w.gid[ti] and w.dat(j).shape == w.dat(ti).shape)
@@ -1540,7 +1564,7 @@ def gen_history(rng, length, allow_jit=False, monitors=True):
     w = World(gspecs, monitors=monitors)
     gen = Gen(rng, w, allow_jit)
     tries = 0
-    while len(w.script) < length and tries < 6 * length:
+    while len(w.script) < length and tries < 6 * length and w.unexpected is None:
         tries += 1
         d = gen.propose()
         if d is not None:
@@ -1616,20 +1640,19 @@ def case_of(w):
     return {"grids": w.gspecs, "script": w.script}
 
 
-def rebuild(case, monitors=True, subset=None):
+def rebuild(case, monitors=True, script=None):
     w = World(case["grids"], monitors=monitors)
-    script = case["script"] if subset is None else [case["script"][i] for i in subset]
-    return w.run_script(script)
+    return w.run_script(case["script"] if script is None else script)
 
 
-def ddmin(n, failing_many):
-    """indices of a 1-minimal failing sublist; `failing_many(list of index lists) -> list of bool`"""
-    cur = list(range(n))
+def ddmin(script, failing_many):
+    """1-minimal failing sublist of `script`; `failing_many(list of scripts) -> list of bool`"""
+    cur = list(script)
     gran = 2
     while len(cur) >= 2:
         size = max(1, len(cur) // gran)
-        chunks = [cur[i:i + size] for i in range(0, len(cur), size)]
-        cands = [[x for x in cur if x not in set(c)] for c in chunks]
+        chunks = [(i, i + size) for i in range(0, len(cur), size)]
+        cands = [cur[:lo] + cur[hi:] for lo, hi in chunks]
         res = failing_many(cands)
         hit = next((c for c, r in zip(cands, res) if r), None)
         if hit is not None:
@@ -1642,18 +1665,61 @@ def ddmin(n, failing_many):
     return cur
 
 
+REF_FIELDS = ("h", "a", "b", "c", "src", "out")
+
+
+def retargets(case, script):
+    """variants of `script` whose last operation refers to other (earlier) handles - lets the
+    shrinker drop the operations that only built the handle the failing operation happened to use"""
+    w = rebuild(case, monitors=False, script=script[:-1])
+    names = [list(n) for n in w.names]
+    last = script[-1]
+    out = []
+    for f in REF_FIELDS:
+        if isinstance(last.get(f), list):
+            for n in names:
+                if n != last[f]:
+                    out.append(script[:-1] + [dict(last, **{f: n})])
+    if isinstance(last.get("hs"), list):
+        for k in range(len(last["hs"])):
+            for n in names:
+                if n != last["hs"][k]:
+                    out.append(script[:-1] + [dict(last, hs=last["hs"][:k] + [n] + last["hs"][k + 1:])])
+    return out[:80]
+
+
+def shrink(case, failing_many):
+    cur = ddmin(case["script"], failing_many)
+    for _ in range(4):
+        if len(cur) <= 2:
+            break
+        cands = retargets(case, cur)
+        res = failing_many(cands)
+        best = cur
+        for c, r in zip(cands, res):
+            if r:
+                c2 = ddmin(c, failing_many)
+                if len(c2) < len(best):
+                    best = c2
+                    if len(best) <= 2:
+                        break
+        if len(best) == len(cur):
+            break
+        cur = best
+    return cur
+
+
 def shrink_monitor(case, what):
     def failing_many(cands):
         out = []
-        for idx in cands:
+        for sc in cands:
             try:
-                w = rebuild(case, subset=idx)
+                w = rebuild(case, script=sc)
                 out.append(any(f["what"] == what for f in w.mfail))
             except Exception:  # noqa: BLE001
                 out.append(False)
         return out
-    idx = ddmin(len(case["script"]), failing_many)
-    w = rebuild(case, subset=idx)
+    w = rebuild(case, script=shrink(case, failing_many))
     return {"grids": case["grids"], "script": w.script}, next((f for f in w.mfail if f["what"] == what), None)
 
 
@@ -1663,9 +1729,9 @@ def shrink_disagreement(ctx, case, what_key):
     def failing_many(cands):
         b = LeanBatch(ctx.workdir)
         ws = []
-        for idx in cands:
+        for sc in cands:
             try:
-                w = rebuild(case, monitors=False, subset=idx)
+                w = rebuild(case, monitors=False, script=sc)
                 b.add("c15.run", w.request())
                 ws.append(w)
             except Exception:  # noqa: BLE001
@@ -1679,8 +1745,7 @@ def shrink_disagreement(ctx, case, what_key):
             diff = compare(w, next(ans))
             out.append(diff is not None and diff["what"].split(" after ")[0].split(" of handle")[0] == what_key)
         return out
-    idx = ddmin(len(case["script"]), failing_many)
-    w = rebuild(case, monitors=False, subset=idx)
+    w = rebuild(case, monitors=False, script=shrink(case, failing_many))
     b = LeanBatch(ctx.workdir)
     b.add("c15.run", w.request())
     return {"grids": case["grids"], "script": w.script}, compare(w, b.run()[0])
@@ -1696,72 +1761,114 @@ def summarize(case):
 
 
 # ------------------------------------------------------------------------------------------
-def run(ctx):
+def worker(args):
+    """generate histories, execute them on the real code (monitors included), replay them on the
+    model, compare; returns only picklable summaries (run in a fresh interpreter)"""
+    import collections
+    import os
+    import random
     from harness.common.lean import LeanBatch
-    rng = ctx.rng
-    n_hist = ctx.budget(260, 6000)
-    n_jit = ctx.budget(2, 40)
-    chunk = 130
+    seed, n_hist, n_jit = args
+    rng = random.Random(seed)
+    workdir = os.path.join(os.environ["VERIF_WORKDIR"], f"c15w{os.getpid()}")
+    os.makedirs(workdir, exist_ok=True)
+    out = {"cases": [], "hists": collections.defaultdict(collections.Counter), "monitor_evals": 0,
+           "mfails": [], "dis": []}
+    hist = lambda name, key: out["hists"][name].update([str(key)])
     done = 0
-    first_dis = []
-    shrunk = set()
     while done < n_hist:
-        batch = LeanBatch(ctx.workdir)
+        batch = LeanBatch(workdir)
         worlds = []
-        for h in range(min(chunk, n_hist - done)):
-            length = rng.randint(5, 40)
-            w = gen_history(rng, length, allow_jit=(done + h) < n_jit)
+        for h in range(min(100, n_hist - done)):
+            w = gen_history(rng, rng.randint(5, 40), allow_jit=(done + h) < n_jit)
             worlds.append(w)
             batch.add("c15.run", w.request())
         answers = batch.run()
         for w, ans in zip(worlds, answers):
             case = case_of(w)
-            nontrivial = bool(w.write_seen and "alias" in w.flags)
-            ctx.count({"grids": case["grids"], "ops": summarize(case)}, nontrivial=nontrivial, leg="history")
-            ctx.impl_traces += 1
-            ctx.monitor_evals += w.n_monitor
-            ctx.hist("history_length", len(w.script))
-            ctx.hist("objects_at_end", min(len(w.objs) // 10 * 10, 90))
+            out["cases"].append(({"grids": case["grids"], "ops": summarize(case)}, bool(w.write_seen and "alias" in w.flags)))
+            out["monitor_evals"] += w.n_monitor
+            hist("history_length", len(w.script))
+            hist("objects_at_end", min(len(w.objs) // 10 * 10, 90))
             for g in w.gspecs:
-                ctx.hist("grid", f"{g[0]}{len(g[1]) if g[0] in ('unit',) else ''}")
+                hist("grid", f"{g[0]}{len(g[1]) if g[0] == 'unit' else ''}")
             for d, rec in zip(w.script, w.steps):
-                ctx.hist("operation", d["k"] + (":" + d.get("how", d.get("what", d.get("bop", ""))) if d["k"] in ("write", "storage", "derived", "binop", "inplace", "mkColl") else ""))
-                ctx.hist("outcome", rec["err"] or "ok")
+                hist("operation", d["k"] + (":" + str(d.get("how", d.get("what", d.get("bop", ""))))
+                                            if d["k"] in ("write", "storage", "derived", "binop", "inplace", "mkColl") else ""))
+                hist("outcome", rec["err"] or "ok")
+                if d["k"] == "operator":
+                    hist("operator_backend", d.get("backend"))
             for i in range(len(w.objs)):
-                ctx.hist("dtype", w.dtn(i))
-                ctx.hist("class", w.cls[i])
-            ctx.hist("alias_pairs_at_end", min(len(w.steps[-1]["pairs"]) if w.steps else 0, 50) // 5 * 5)
+                hist("dtype", w.dtn(i))
+                hist("class", w.cls[i])
+            hist("alias_pairs_at_end", min(len(w.steps[-1]["pairs"]) if w.steps else 0, 50) // 5 * 5)
             seen = set()
             for f in w.mfail:
-                if f["what"] in seen:
-                    continue
-                seen.add(f["what"])
-                if f["what"] in shrunk:
-                    small, ff = case, f     # one shrunk history per kind of failure is enough
-                else:
-                    shrunk.add(f["what"])
-                    small, ff = shrink_monitor(case, f["what"])
-                ff = ff or f
-                ctx.monitor_fail("monitor", small, {"failure": ff["what"], "at_operation": ff["step"], "detail": ff["detail"],
-                                                    "history": summarize(small)},
-                                 "the property statement holds after every operation", f["what"].split(":")[-1].strip(),
-                                 key=finding_key(ff))
+                if f["what"] not in seen:
+                    seen.add(f["what"])
+                    out["mfails"].append((case, f))
             diff = compare(w, ans)
+            if diff is None and w.unexpected is not None:
+                diff = {"step": len(w.steps), "what": "outcome of a valid operation", "model": "ok", "impl": w.unexpected}
             if diff is not None:
-                first_dis.append((len(w.script), case, diff))
+                out["dis"].append((case, {k: (v if isinstance(v, (str, int, type(None))) else str(v)[:2000]) for k, v in diff.items()}))
         done += len(worlds)
-    # shrink (at most a few) disagreeing histories, shortest first
-    first_dis.sort(key=lambda x: x[0])
+    out["hists"] = {k: dict(v) for k, v in out["hists"].items()}
+    return out
+
+
+def run(ctx):
+    from harness.common.isolated import run_many
+    procs = ctx.budget(8, 16)
+    n_hist = ctx.budget(1600, 40000)
+    per = -(-n_hist // procs)
+    # histories per worker whose differential operators run on the compiled (numba) backend; all
+    # others use the scipy backend (no compilation)
+    jobs = [(f"C15:{ctx.seed}:{ctx.rng.getrandbits(64)}:{k}", per, ctx.budget(1 if k < 2 else 0, 3))
+            for k in range(procs)]
+    results = run_many("harness.c15", "worker", jobs, procs=procs, workdir=ctx.workdir)
+    mfails, dis = [], []
+    for r in results:
+        if isinstance(r, str):
+            from harness.common.lean import BrokenCheck
+            raise BrokenCheck("worker failed: " + r)
+        for case, nontrivial in r["cases"]:
+            ctx.count(case, nontrivial=nontrivial, leg="history")
+            ctx.impl_traces += 1
+        ctx.monitor_evals += r["monitor_evals"]
+        for name, cnt in r["hists"].items():
+            for key, n in cnt.items():
+                ctx.hist(name, key, n)
+        mfails += r["mfails"]
+        dis += r["dis"]
+    # monitor failures: one shrunk history per kind of failure, the others as found
+    mfails.sort(key=lambda cf: len(cf[0]["script"]))
+    shrunk = set()
+    for case, f in mfails:
+        if f["what"] in shrunk:
+            small, ff = case, f
+        else:
+            shrunk.add(f["what"])
+            small, ff = shrink_monitor(case, f["what"])
+            ff = ff or f
+        ctx.monitor_fail("monitor", small, {"failure": ff["what"], "at_operation": ff["step"], "detail": ff["detail"],
+                                            "history": summarize(small)},
+                         "the property statement holds after every operation", ff["what"].split(":")[-1].strip(),
+                         key=finding_key(ff))
+    # disagreements: shrink (at most three kinds), shortest first
+    dis.sort(key=lambda cd: len(cd[0]["script"]))
     kinds = set()
-    for _, case, diff in first_dis:
+    for case, diff in dis:
         key = diff["what"].split(" after ")[0].split(" of handle")[0]
-        if key in kinds or len(kinds) >= 3:
-            ctx.disagree("correspondence", {"grids": case["grids"], "history": summarize(case)}, diff.get("model"), diff.get("impl"), diff["what"])
+        if key in kinds or len(kinds) >= 3 or diff["what"] == "outcome of a valid operation":
+            ctx.disagree("correspondence", case, diff.get("model"), diff.get("impl"),
+                         diff["what"] + " | history: " + str(summarize(case))[:1500])
             continue
         kinds.add(key)
         small, d2 = shrink_disagreement(ctx, case, key)
         d2 = d2 or diff
-        ctx.disagreements.insert(0, {"leg": "correspondence", "case": small, "model": d2.get("model"), "impl": d2.get("impl"),
+        ctx.disagreements.insert(0, {"leg": "correspondence", "case": small, "model": str(d2.get("model"))[:2000],
+                                     "impl": str(d2.get("impl"))[:2000],
                                      "note": d2["what"] + " | history: " + str(summarize(small))[:1500]})
 
 
